@@ -11,6 +11,7 @@ type Mutex struct {
 
 // Lock acquires lock.
 func (m *Mutex) Lock() {
+	simLock(m)
 	m.mutex.Lock()
 }
 
@@ -23,6 +24,7 @@ func (m *Mutex) Unlock() {
 	acbs := m.acbs
 	m.acbs = nil
 	m.mutex.Unlock()
+	simUnlock(m)
 	for _, cb := range acbs {
 		cb()
 	}
